@@ -92,6 +92,15 @@ def check(ctx):
     st = f"{AL}:Aliases.eval_alias"
     cfg = CFG(ev)
     defs = df.all_defs(ev)
+    # the alias's own remaining words: the starred target of the unpacking of the (expanded) alias value
+    value_p = param_name(ev, 0)
+    rest_names = set()
+    for n_ in walk_local(ev):
+        if isinstance(n_, ast.Assign) and isinstance(n_.targets[0], ast.Tuple) and value_p in df.names_read(n_.value):
+            rest_names |= {t.value.id for t in n_.targets[0].elts if isinstance(t, ast.Starred) and isinstance(t.value, ast.Name)}
+    if len(rest_names) != 1:
+        raise AnalysisError(f"{AL}:Aliases.eval_alias: the unpacking `token, *rest = <expanded value>` was not found ({sorted(rest_names)})")
+    REST = next(iter(rest_names))
     params = [a.arg for a in ev.args.args]
     if not {"seen_tokens", "acc_args"} <= set(params):
         raise AnchorMissing(f"{st}: parameters seen_tokens/acc_args missing")
@@ -161,7 +170,7 @@ def check(ctx):
                 parts = _flatten_seq(defs, last.value, None)
         elif a_arg is not None:
             parts = _flatten_seq(defs, a_arg, None)
-        ok = parts is not None and "rest" in parts and acc_p in parts and parts.index("rest") < parts.index(acc_p) and len(parts) == 2
+        ok = parts is not None and REST in parts and acc_p in parts and parts.index(REST) < parts.index(acc_p) and len(parts) == 2
         ctx.ob("R2", st, f"recursive call passes accumulated arguments = alias's rest + user's ({parts})", ok, key="rec|acc-order", where=loc(c))
         # decorators/env_out threading
         for nm in ("decorators",):
@@ -185,8 +194,8 @@ def check(ctx):
             parts = _flatten_seq(defs, v, None)
         ok = parts is not None and acc_p in parts
         order_ok = True
-        if ok and "rest" in parts:
-            order_ok = parts.index("rest") < parts.index(acc_p)
+        if ok and REST in parts:
+            order_ok = parts.index(REST) < parts.index(acc_p)
         if ok:
             # the command word comes first
             order_ok = order_ok and parts[0].startswith("elt:") and parts[-1] == acc_p
@@ -199,7 +208,7 @@ def check(ctx):
             continue
         parts = _flatten_seq(defs, d.value, None) if d.value is not None else None
         empt = isinstance(d.value, (ast.List, ast.Tuple)) and not d.value.elts
-        ok = empt or (parts is not None and parts[-1] == acc_p and len(parts) == 2 and parts[0] == "rest")
+        ok = empt or (parts is not None and parts[-1] == acc_p and len(parts) == 2 and parts[0] == REST)
         if empt:
             # must follow a call that received acc_args (return_command alias consumed them)
             prev = [c for c in calls_in(ev) if any(unparse(a) == acc_p for a in c.args) and c.lineno <= d.stmt.lineno and c not in rec_calls and call_name(c) not in ("list", "tuple")]
@@ -207,8 +216,8 @@ def check(ctx):
         ctx.ob("R2", st, f"`{short(d.stmt)}` keeps the user's arguments last (or hands them to the return-command alias)", ok, key=f"acc-rebind|{unparse(d.value)}", where=loc(d.stmt))
 
     # token, *rest = map(expand_path, value): rest are the alias's own words
-    rest_defs = defs.get("rest", [])
-    ctx.ob("R2", st, "`rest` is bound exactly once, from the alias value", len(rest_defs) == 1 and "value" in df.names_read(rest_defs[0].value) if rest_defs else False, key="rest-binding")
+    rest_defs = defs.get(REST, [])
+    ctx.ob("R2", st, f"`{REST}` is bound exactly once, from the alias value", len(rest_defs) == 1 and value_p in df.names_read(rest_defs[0].value) if rest_defs else False, key="rest-binding")
 
     # ---- get(): seeds and passes args
     gst = f"{AL}:Aliases.get"
